@@ -1332,6 +1332,12 @@ def call(fr, n: ast.Call):
 def apply(fr, f, args, kw, n):
     I = fr.I
     if isinstance(f, AOpq):
+        why_ = str(f.why)
+        if any(isinstance(a_, AObj) for a_ in list(args) + list(kw.values())) and not why_.startswith(("logging", "typing", "impure:", "call of opaque (logging", "attr ")) \
+                and not getattr(I, "opaque_calls_keep_objects", False):
+            # an UNKNOWN callee is handed an object of the analysed program: it may change it (a writer picked from a table by an index
+            # the analysis lost).  Treating the call as effect-free would make every effect-based rule conclude from a dropped effect
+            raise Abort(f"call of a callee the analysis lost ({why_[:80]}) with an object it could change")
         return I.opaque(f"call of opaque ({f.why})")
     if isinstance(f, FuncRef):
         a = list(args)
